@@ -24,7 +24,7 @@ type C15Case struct {
 
 var _ = Register("C15", func() interface{} { return new(C15Case) }, func(c interface{}) string { return c15Oracle(c.(*C15Case)) })
 
-var c15Decl = &GenCfg{Depth: 2, Fanout: 3, MaxOpts: 4, MaxGroups: 2, NestGroups: 1, Kinds: []Kind{KMapSS, KMapSI, KMapIS, KMapFS, KString, KInt, KStringSlice, KBool},
+var c15Decl = &GenCfg{Depth: 2, Fanout: 3, MaxOpts: 4, MaxGroups: 2, NestGroups: 1, Kinds: []Kind{KMapSS, KMapSI, KMapIS, KMapFS, KString, KInt, KStringSlice, KBool, KFuncS, KInt8},
 	Ns: true, Req: 30, Choices: true, Defaults: true, Hidden: true, Desc: true, Bases: false, Aliases: true, SubOpt: 30, CmdPct: 80, Env: true,
 	ParserOpts: []flags.Options{flags.HelpFlag, flags.PassDoubleDash, flags.IgnoreUnknown}}
 
@@ -44,6 +44,9 @@ func genC15(t *rapid.T) *C15Case {
 				o.Desc = "map option " + o.ID
 				if len(o.Defaults) == 0 && rapid.IntRange(0, 3).Draw(t, "prepopulate") > 0 {
 					n := rapid.IntRange(2, 6).Draw(t, "nentries")
+					if rapid.IntRange(0, 5).Draw(t, "bigMap") == 0 {
+						n = rapid.IntRange(9, 14).Draw(t, "bigMapN")
+					}
 					o.Initial = nil
 					numericLooking := rapid.IntRange(0, 2).Draw(t, "numericKeys") == 0
 					for j := 0; j < n; j++ {
@@ -51,7 +54,7 @@ func genC15(t *rapid.T) *C15Case {
 						k := fmt.Sprintf("k%d", j)
 						if numericLooking {
 							// distinct string keys that denote the same or neighbouring numbers
-							k = []string{"7", "07", "+7", "007", "3", "12", "intro"}[j%7]
+							k = []string{"7", "07", "+7", "007", "3", "12", "intro"}[j%7] + strings.Repeat("0", j/7)
 						}
 						if kk == KInt {
 							k = fmt.Sprint(j * 7)
@@ -107,6 +110,16 @@ func genC15(t *rapid.T) *C15Case {
 	nf := rapid.IntRange(0, 2).Draw(t, "nfaults")
 	for i := 0; i < nf; i++ {
 		text += rapid.SampledFrom([]string{"[No Such Section]\nx = 1\n", "[Application Options]\nnosuchkey = 1\n", "[Other Missing]\ny = 2\n", "nosuchkey2 = 5\n"}).Draw(t, "fault")
+	}
+	// two entries of different options with unconvertible values (which one is reported?)
+	if rapid.IntRange(0, 3).Draw(t, "badIniValues") == 0 {
+		nb := 0
+		for _, o := range d.AllOpts() {
+			if (o.Kind == KInt || o.Kind == KInt8 || o.Kind == KMapSI) && len(o.Chain) == 1 && o.IniName == "" && nb < 3 {
+				text += fmt.Sprintf("[%s]\n%s = notanumber\n", o.Groups[len(o.Groups)-1].Desc, o.Field)
+				nb++
+			}
+		}
 	}
 	c.Ini = text
 	// completion request
